@@ -227,8 +227,45 @@ def gen_obj(rnd, idx):
             nv += 1
             variables[name] = {"kind": "enum", "type": e, "domain": enum_vals(e)}
             stmts.append("%s %s;" % (e, name))
+    # pattern: several instances whose object field holds the SAME instance, others holding another one, and a variable over all of them
+    pat = None
+    if rnd.random() < 0.2:
+        cands = [(cl, cl.params[0][1]) for cl in classes if len(cl.params) == 1 and cl.params[0][0] == "obj" and not cl.supers and not cl.super_args]
+        cands = [(cl, t) for cl, t in cands if not [c for c in classes if c.name == t][0].params and not [c for c in classes if c.name == t][0].supers]
+        if cands:
+            cl, tname = rnd.choice(cands)
+            tcl = [c for c in classes if c.name == tname][0]
+
+            def new_inst(c, args, targs):
+                nonlocal ni
+                name = "o%d" % ni
+                ni += 1
+                flds = {}
+                for a in c.ancestors():
+                    if name not in by_cls[a.name]:
+                        by_cls[a.name].append(name)
+                construct(c, args, name, flds)
+                instances.append((name, c, flds))
+                stmts.append("%s %s = new %s(%s);" % (c.name, name, c.name, ", ".join(targs)))
+                return name
+            # (the target class may have existential fields of its own: only plain ones are used)
+            if not any(kind == "obj" for a in tcl.ancestors() for kind, tp, nm, init in a.fields):
+                t0, t1 = new_inst(tcl, [], []), new_inst(tcl, [], [])
+                group = [new_inst(cl, [("ref", t)], [t]) for t in (t0, t0, t1, t1)]
+                vname = "v%d" % nv
+                nv += 1
+                variables[vname] = {"kind": "obj", "type": cl.name, "domain": list(by_cls[cl.name])}
+                stmts.append("%s %s;" % (cl.name, vname))
+                fld = [nm for kind, tp, nm, init in cl.fields if kind == "obj" and cl.own_init.get(nm) == ("p", cl.params[0][2])]
+                if fld:
+                    pat = (vname, fld[0], t0, t1, group)
     # constraints between variables / instances / fields
     cons = []
+    if pat:
+        vname, fld, t0, t1, group = pat
+        cons.append((rnd.choice(["neq", "neq", "eq"]), ("id", [vname, fld]), ("id", [rnd.choice([t0, t1])])))
+        for g in rnd.sample(group, rnd.randint(0, 3)):
+            cons.append(("neq", ("id", [vname]), ("id", [g])))
     objvars = [v for v, d in variables.items() if d["kind"] == "obj"]
     envars = [v for v, d in variables.items() if d["kind"] == "enum"]
     inst_names = [n for n, _, _ in instances]
@@ -265,6 +302,23 @@ def gen_obj(rnd, idx):
         elif c < 0.6 and len(envars) >= 2:
             a, b = rnd.sample(envars, 2)
             cons.append((rnd.choice(["eq", "neq"]), ("id", [a]), ("id", [b])))
+        elif c < 0.9 and objvars and rnd.random() < 0.45:
+            # an object-typed field reached through a variable, compared with an instance (several candidates may share the field's value)
+            a = rnd.choice(objvars)
+            cl = [c for c in classes if c.name == variables[a]["type"]][0]
+            of = [(nm, tp) for an in cl.ancestors() for kind, tp, nm, init in an.fields if kind == "obj"]
+            if not of:
+                continue
+            f, ftp = rnd.choice(of)
+            insts = [i for i in inst_names if assignable(ftp, cls_of[i].name)]
+            if not insts:
+                continue
+            # (only fields that hold an instance in every candidate: reading an EXISTENTIAL field through a variable is a recorded defect,
+            # exercised by a fixed witness in C17 instead of at random)
+            fmap = {n: fl for n, c2, fl in instances}
+            if any(fmap[i].get(f, ("ref",))[0] != "ref" for i in variables[a]["domain"]):
+                continue
+            cons.append((rnd.choice(["eq", "neq", "neq"]), ("id", [a, f]), ("id", [rnd.choice(insts)])))
         elif c < 0.75 and objvars and rnd.random() < 0.5:
             # a boolean field reached through a variable
             a = rnd.choice(objvars)
